@@ -13,6 +13,15 @@ class head2head_count:
     modifies = ()
     locals = dict(count=Real)
 
+    def witnesses():
+        import types
+        from votekit.ballot import Ballot
+        from votekit.pref_profile import PreferenceProfile
+        A, B, C = frozenset("A"), frozenset("B"), frozenset("C")
+        p = PreferenceProfile(ballots=(Ballot(ranking=(A, B, C), weight=Fraction(3)), Ballot(ranking=(frozenset("BC"), A), weight=Fraction(1, 2)),
+                                       Ballot(ranking=(C,), weight=Fraction(2))), candidates=("A", "B", "C"))
+        return [dict(self=types.SimpleNamespace(profile=p), cand1="B", cand2="C"), dict(self=types.SimpleNamespace(profile=p), cand1="C", cand2="A")]
+
     def raises_TypeError(self, cand1, cand2):
         return not all_have_ranking(self.profile.ballots, len(self.profile.ballots))
 
